@@ -160,7 +160,9 @@ def conc_val(m, v):
 def scheme_of(v):
     """scheme source text for a concretised argument description (used by the native replay through eval)"""
     t = v[0]
-    if t == 'str': return '(string%s)' % ''.join(' #\\x%x' % x for x in v[1])
+    if t == 'str':
+        if not v[1]: return '(make-string 0 #\\a)'          # (string) with no argument is an arity error in marwood
+        return '(string%s)' % ''.join(' #\\x%x' % x for x in v[1])
     if t == 'char': return '#\\x%x' % v[1]
     if t == 'int': return str(v[1])
     if t == 'bool': return '#t' if v[1] else '#f'
